@@ -233,4 +233,18 @@ PROPS = {
                                      'the ggqlgen binary is built from /repo/cmd/ggqlgen by ./check --setup'],
         'assumptions': ['descriptions are canonical (non-empty lines, no white space at line ends, no NUL): exactly those readDesc can return', 'runes >= 0x80 are written as their UTF-8 bytes, all >= 0x80 (Go utf8.EncodeRune)'],
     },
+    'C07': {
+        'level': 'proof',
+        'correspondence': 'Exec.exec_op errors (path, location node, kind) and data presence == Root.ResolveString on the same request in five layouts, locations mapped to document nodes through the harness own layout table (independent of the positions ggql stores); envelope shape, location bounds, layout invariance and JSON decoding are checked directly on every response',
+        'rule': ('requests generated as for C06 (failing resolvers, ill-typed leaves, unknown fields and arguments, bad variables and directive values, fragments, several operations, wrong operation names), every sixth one additionally damaged (bytes removed, doubled, replaced, truncated) to be malformed; each request is laid out five ways: one line; one token per line with indentation; the same with CRLF and tabs; commas and # comments between tokens; a random mix of spaces, LF, CRLF, CR, tabs, commas, comments and blank lines. '
+                 'Every layout is sent through ResolveString with the variables of the case. Per response: keys are data/errors only, errors is a non-empty list when present, each message a non-empty string, each path made of strings and non-negative integers, each location positive and inside the submitted text; the token a location refers to must be the same token in all five layouts; a request the model refuses before execution must carry no data (or null); '
+                 'the response is written by WriteJSONValue at indent -1, 0 and 2, decoded by encoding/json and compared structurally. non-trivial = every case; distinct by input text.'),
+        'explanation': ('Theorems C07_scanner_position (when skipSpace returns a byte, (line, col) is the position just behind that byte - every text, every layout), C07_column_convention, C07_positions_positive, C07_scanner_stays_in_text about the scanner model of Text.v (class tables regenerated from parser.go); C07_envelope (a model response without data has at least one error). '
+                        'PARTIAL: that each AST node stores the position taken at its token start (the fix 90ace6d) is checked by the correspondence, not by a model of exeparser.go; the JSON text of a response is covered by the C18 writer model and decoded here by encoding/json only; errors of requests refused before execution are checked for shape, not predicted. '
+                        'Defects repaired: positions taken after the one-byte look-ahead (next line, negative column) for fields, inline fragments, variables (90ace6d), arguments, fragment spreads and two parse errors (next commit).'),
+        'trusted_base': COMMON_TB + ['modelled rather than verified: parser.go readByte/putBack/skipSpace (positions), resolve.go ResolveReader envelope assembly as the executor model of C01/C06, util.go FormErrorsResult by observation',
+                                     'the harness lexer/layout engine and its table of token positions; the three column conventions of ggql (start+1 for nodes, start for arguments, behind the name for fragment spreads) are read as "that token"',
+                                     'encoding/json as the standard JSON parser'],
+        'assumptions': ['the column convention start+1 is the one the pinned suite expects', 'a parse error at the very end of the input points at the last line, column 1'],
+    },
 }
